@@ -436,8 +436,57 @@ def run_stream(ctx, judge=None, prop=PROP, tag='main', use_model=True, frac=0.62
     return res
 
 
+def shrink_variants(case):
+    """smaller versions of a case: fewer stored blocks per operand, entries replaced by 0/1, shorter legs are not
+    attempted (leg shapes are shared between operands)"""
+    out = []
+    for k, d in enumerate(case['operands']):
+        nb = len(d.get('blocks', []))
+        if nb > 1:
+            for keep in ([b for i, b in enumerate(d['blocks']) if i % 2 == 0], [b for i, b in enumerate(d['blocks']) if i % 2 == 1],
+                         d['blocks'][:1], d['blocks'][-1:]):
+                v = copy.deepcopy(case)
+                v['operands'][k]['blocks'] = copy.deepcopy(keep)
+                out.append(v)
+        if nb >= 1:
+            v = copy.deepcopy(case)
+            for b in v['operands'][k]['blocks']:
+                b['vals'] = [1 if (x != 0) else 0 for x in b['vals']] if not any(isinstance(x, list) for x in b['vals']) else b['vals']
+            if v != case:
+                out.append(v)
+    return out
+
+
+def shrink(ctx, res, judge, max_new=2, rounds=2):
+    """Shrink the first few *new* property failures (not listed as known findings): the case is already the
+    dependency slice of the failing step; here blocks are dropped / entries simplified while the same signature
+    keeps failing. One batch of variants per round."""
+    known = {k['signature'] for k in core.load_known_findings() if k.get('status', 'open') == 'open'}
+    done = 0
+    for f in res.failures:
+        if f.kind != 'property' or f.signature in known or done >= max_new or not isinstance(f.case, dict):
+            continue
+        done += 1
+        for _ in range(rounds):
+            variants = shrink_variants(f.case)
+            if not variants:
+                break
+            r = core.Result()
+            try:
+                runs, models = execute(ctx, variants, ('cy', 'py'), use_model=False)
+                (judge or judge_c01)(r, variants, runs, models, ('cy', 'py'))
+            except Exception:
+                break
+            same = [x for x in r.failures if x.signature == f.signature and isinstance(x.case, dict)]
+            if not same:
+                break
+            best = min(same, key=lambda x: sum(len(d.get('blocks', [])) for d in x.case['operands']))
+            f.case, f.detail = best.case, best.detail
+    return res
+
+
 def run(ctx):
-    return run_stream(ctx)
+    return shrink(ctx, run_stream(ctx), None)
 
 
 def search(ctx, reasons):
